@@ -341,7 +341,14 @@ func (x *Exec) intrinsic(fr *Frame, ins ssa.Instruction, fn *ssa.Function, args 
 	switch name {
 	case "Assume":
 		c := args[0].(*Term)
-		if x.useMode > 0 {
+		if x.useMode > 0 && x.curUse != nil && x.target != nil && x.curUse.PkgPath != x.target.PkgPath && isVerifGlobalsCall(ins) {
+			// the callee package's verifGlobals(): its package-level variables are
+			// initialised once and never reassigned (standing assumption, listed in
+			// every evidence file); a caller in another package cannot re-derive it
+			x.countPre()
+			x.assumeIn(st, c)
+			x.note("verifGlobals() of package %s assumed at calls from package %s", x.curUse.PkgPath, x.target.PkgPath)
+		} else if x.useMode > 0 {
 			// precondition of a used contract: obligation at the call site
 			pos := ins.Pos()
 			if x.useSite != nil {
@@ -1086,4 +1093,18 @@ func (x *Exec) setupPanicMode(ct *Contract, fn *ssa.Function, args []Value) {
 	if x.panicKnown == nil {
 		x.panicKnown = map[int]bool{}
 	}
+}
+
+// isVerifGlobalsCall: the intrinsic's argument is the result of verifGlobals().
+func isVerifGlobalsCall(ins ssa.Instruction) bool {
+	ci, ok := ins.(ssa.CallInstruction)
+	if !ok || len(ci.Common().Args) == 0 {
+		return false
+	}
+	if c, ok := ci.Common().Args[0].(*ssa.Call); ok {
+		if f := c.Call.StaticCallee(); f != nil && f.Name() == "verifGlobals" {
+			return true
+		}
+	}
+	return false
 }
